@@ -1,12 +1,14 @@
 """C08 - perturbation wrappers evaluate exactly the input that each output index denotes."""
 import ast
 from ..front import dotted, const_value, unparse, walk_no_nested, parent_map, kwarg
-from ..core import holds, violation, unrecognised
+from ..core import holds, violation, unrecognised, named
 from ..axes import chain, flat_args, apply_perm, PERMUTERS
 
 ID = "C08"
 ANCHORS = 'ablate.ablate,ablate.ablate_annotations,marginalize.marginalize,marginalize.marginalize_annotations,space.space,product.apply_pairwise,product.apply_product'.split(",")
 MIN_INSTANCES = 24
+# rule families whose findings in this module are derived by an engine (not by comparing spellings): exempt from the rewrite gate
+SEMANTIC_RULES = {"R-PURE"}
 EXPLANATION = (
     "ROLE rules: in marginalize/ablate/space the 'before' call of func receives the unmodified X (never rebound) and the "
     "'after' call receives exactly the tensor produced by the perturbation primitive called with the caller's own "
@@ -534,7 +536,10 @@ def product_rules(repo, q):
                 # named deviation: exactly one of the two buffers is reset (rows of later batches pair with stale arguments); any other
                 # spelling of the reset is not recognised
                 one = ("X_ = []" in after) != any(a.startswith("args_ = ") for a in after)
-                verdict = violation if one else unrecognised
+                # named deviation: list multiplication makes every per-argument buffer the SAME list object
+                aliased = any(a.startswith("args_ = [[]] * ") or a.startswith("args_ = [[]]*") for a in after) or \
+                    any("[[]] * len(args)" in a for a in after)
+                verdict = named if (one or aliased) else unrecognised
         out.append((holds if ok else verdict)("R-FLUSH", fi, "a full batch is evaluated, appended, then both buffers are reset together",
                                               unparse(t.test), t))
     post = list(loop.orelse)
